@@ -486,42 +486,52 @@ class SymArray(numpy.ndarray):
         return f_sum(self, axis=axis, dtype=dtype, keepdims=keepdims, **kw)
 
     def prod(self, axis=None, dtype=None, out=None, keepdims=False, **kw):
-        return f_prod(self, axis=axis, keepdims=keepdims)
+        _no_out(out)
+        return f_prod(self, axis=axis, keepdims=keepdims, **kw)
 
     def mean(self, axis=None, dtype=None, out=None, keepdims=False, **kw):
-        return f_mean(self, axis=axis, keepdims=keepdims)
+        _no_out(out)
+        return f_mean(self, axis=axis, keepdims=keepdims, **kw)
 
     def var(self, axis=None, dtype=None, out=None, ddof=0, keepdims=False, **kw):
-        return f_var(self, axis=axis, ddof=ddof, keepdims=keepdims)
+        _no_out(out)
+        return f_var(self, axis=axis, ddof=ddof, keepdims=keepdims, **kw)
 
     def std(self, axis=None, dtype=None, out=None, ddof=0, keepdims=False, **kw):
-        return f_std(self, axis=axis, ddof=ddof, keepdims=keepdims)
+        _no_out(out)
+        return f_std(self, axis=axis, ddof=ddof, keepdims=keepdims, **kw)
 
     def max(self, axis=None, out=None, keepdims=False, **kw):
-        return f_max(self, axis=axis, keepdims=keepdims)
+        _no_out(out)
+        return f_max(self, axis=axis, keepdims=keepdims, **kw)
 
     def min(self, axis=None, out=None, keepdims=False, **kw):
-        return f_min(self, axis=axis, keepdims=keepdims)
+        _no_out(out)
+        return f_min(self, axis=axis, keepdims=keepdims, **kw)
 
     def ptp(self, axis=None, out=None, keepdims=False):
         return f_max(self, axis=axis, keepdims=keepdims) - f_min(self, axis=axis, keepdims=keepdims)
 
     def argmax(self, axis=None, out=None, **kw):
-        return f_argmax(self, axis=axis)
+        _no_out(out)
+        return f_argmax(self, axis=axis, **kw)
 
     def argmin(self, axis=None, out=None, **kw):
         return f_argmin(self, axis=axis)
 
     def all(self, axis=None, out=None, keepdims=False, **kw):
-        return f_all(self, axis=axis, keepdims=keepdims)
+        _no_out(out)
+        return f_all(self, axis=axis, keepdims=keepdims, **kw)
 
     def any(self, axis=None, out=None, keepdims=False, **kw):
-        return f_any(self, axis=axis, keepdims=keepdims)
+        _no_out(out)
+        return f_any(self, axis=axis, keepdims=keepdims, **kw)
 
     def cumsum(self, axis=None, dtype=None, out=None):
         return f_cumsum(self, axis=axis)
 
     def dot(self, b, out=None):
+        _no_out(out)
         return f_dot(self, b)
 
     def argsort(self, axis=-1, kind=None, order=None, **kw):
@@ -558,7 +568,7 @@ class SymArray(numpy.ndarray):
         return _scalar_out(tot, self._vd)
 
     def take(self, indices, axis=None, out=None, mode="raise"):
-        return f_take(self, indices, axis=axis)
+        return f_take(self, indices, axis=axis, out=out, mode=mode)
 
     def repeat(self, repeats, axis=None):
         return SymArray(_nd.repeat(raw(self), _concrete_ints(repeats), axis=axis), self._vd)
@@ -907,6 +917,11 @@ def _sum_vd(vd):
     return vd
 
 
+def _no_out(out):
+    if out is not None:
+        raise EngineUnsupported("out= argument of an array method is not modelled")
+
+
 def _nokw(fname, kw, allowed=()):
     """keyword arguments a handler does not model must not be dropped silently (a changed call such as max(initial=0) would be invisible)"""
     for k, v in kw.items():
@@ -1204,10 +1219,16 @@ def _dotvec(u, v):
     return 0 if tot is None else tot
 
 
+NARROW_ACCUM = []      # (function, result dtype, reduction length): products accumulated in an integer type narrower than 32 bit
+
+
 def f_matmul(a, b):
     a = _sa(a)
     b = _sa(b)
     vd = _ufunc_vd(numpy.multiply, (a, b))
+    if vd != _OBJ and vd.kind in "iu" and vd.itemsize < 4 and a.ndim >= 1 and a.shape[-1] >= 1:
+        # numpy accumulates matmul/dot of int8/int16 operands in that same type: wraps for long reductions (harnesses may assert on this log)
+        NARROW_ACCUM.append(("matmul", str(vd), int(a.shape[-1])))
     if a.is_concrete() and b.is_concrete() and vd != _OBJ:
         with numpy.errstate(all="ignore"):
             return box(numpy.matmul(unbox(a), unbox(b)))
